@@ -1,18 +1,18 @@
-\* Recording; W=3; one deployment asked for by block acceptance; graph dumped, a covering sample of paths replayed.
+\* Recording; W=2; a chain with one side branch from any block (6 blocks in all); graph dumped, paths replayed.
 SPECIFICATION Spec
 CONSTANTS
-  W = 3
+  W = 2
   NetThr = 2
   K = 1
   Starts = {0}
-  Timeouts = {0, 4}
+  Timeouts = {0}
   Thrs = {0}
-  MinHs = {0, 9}
+  MinHs = {0}
   Alwayss = {0}
-  Implicit = {1}
-  MaxBlocks = 9
-  MaxHeight = 9
-  MaxLeaves = 1
+  Implicit = {}
+  MaxBlocks = 6
+  MaxHeight = 6
+  MaxLeaves = 2
   MaxTime = 14
   ForkHeights = {1000}
   Canonical = TRUE
